@@ -50,6 +50,12 @@ def _kf_bbox_tiny(case, bucket, message, details, config):
     misplaced (by up to the full extent at extent/|position| ~ 1e-8)."""
     if not (bucket.startswith('C08/containment/C') or bucket.startswith('C08/tightness/C')):
         return False
+    if 'err' in details and details.get('axis_ext', 0) > 0:
+        # judged on the object that was actually queried (it may be derived from the case's segment by a translation etc.):
+        # extent below 1e-5 of the coordinates, and a miss no larger than the cancellation in the discriminant explains
+        # (~12 eps * pos^2 / extent, measured on the pinned tree over 20000 cubics at offsets 1e4..1e9); anything larger is something else
+        return (details['axis_ext'] < 1e-5 * details['axis_pos']
+                and details['err'] <= 64 * 2.0 ** -52 * details['axis_pos'] ** 2 / details['axis_ext'])
     from . import gen
     specs = [case['spec']] if case.get('what') == 'seg' else case.get('segs', [])
     for spec in specs:
